@@ -243,9 +243,10 @@ class SendEventResponse(StreamingResponse[ServerSentEvent]):
         q: "asyncio.Queue[ServerSentEvent | None]" = asyncio.Queue(maxsize=1)
 
         should_stop = False
+        releasing = False
 
         async def push() -> None:
-            nonlocal should_stop
+            nonlocal should_stop, releasing
 
             try:
                 i = self.iterable.__aiter__()
@@ -257,6 +258,7 @@ class SendEventResponse(StreamingResponse[ServerSentEvent]):
                         should_stop = True
             finally:
                 await q.put(None)
+                releasing = True
                 g = self.iterable
                 if hasattr(g, "aclose"):
                     await g.aclose()  # type: ignore
@@ -276,7 +278,10 @@ class SendEventResponse(StreamingResponse[ServerSentEvent]):
             should_stop = True
             while not q.empty():
                 q.get_nowait()  # pragma: no cover
-            if not push_future.cancel():
+            if releasing:
+                # the iterable is being closed: let it finish instead of cancelling it halfway
+                await push_future
+            elif not push_future.cancel():
                 exc = push_future.exception()
                 if exc is not None:
                     raise exc
